@@ -318,7 +318,77 @@ def _units():
     return units
 
 
-UNITS = _units()
+def poisson_wrapper_unit(U):
+    """pdes/laplace.py: solve_poisson_equation hands the caller's boundary conditions and right-hand side to the solver
+    routine, returns exactly what the routine wrote, and NEVER returns when the routine failed (an unsolvable discrete
+    problem must raise, whatever the magnitude of the right-hand side)"""
+    from ..arrays import sym_array
+    from ..ctx import PyRaise
+    from ..objects import Instance
+    from ..values import Opaque
+    from .common import explore_paths, prem_of
+
+    def body(it):
+        n = z3.Int("n")
+        it.ctx.assume(n >= 1)
+        log = {}
+        bc_token = Instance(None, {}, name="the caller's bc")
+        bcs_obj = Instance(None, {}, name="BoundariesList")
+        grid = Instance(None, {"get_boundary_conditions": lambda bc, **k: (log.setdefault("bc", bc), bcs_obj)[1]}, name="grid")
+        rhs_data = sym_array("rhs", (n,))
+        rhs = Instance(None, {"grid": grid, "data": rhs_data, "magnitude": z3.Real("rhs_magnitude")}, name="rhs field")
+        solution = z3.Function("solution_written_by_the_solver", z3.IntSort(), z3.RealSort())
+
+        def solver(a, out):
+            log["solver_args"] = (a, out)
+            if it.ctx.branch(z3.Bool("linear_solve_succeeds")):
+                j = z3.Int("jj")
+                from ..arrays import MapLayer
+                out.buf.push(MapLayer(out.buf.content, [(j, 0, out.shape[0])], True, out.base_index((j,)), solution(j)))
+                return None
+            raise PyRaise("RuntimeError", ("solver did not converge / singular matrix",))
+
+        def factory(bcs=None, **kw):
+            log["factory_bcs"] = bcs
+            return solver
+
+        backend = Instance(None, {"get_operator_info": lambda g, name: (log.setdefault("op", (g, name)), Instance(None, {"factory": factory}, name="OperatorInfo"))[1]}, name="scipy backend")
+        it.stub_names["get_backend"] = lambda *a, **k: backend
+        made = []
+
+        def ScalarField(g, label=None, **kw):
+            f = Instance(None, {"grid": g, "label": label, "data": sym_array("result_buffer", (n,))}, name="result field")
+            made.append(f)
+            return f
+
+        it.overrides["ScalarField"] = ScalarField
+        r = it.call(it.get_function("pde.pdes.laplace", "solve_poisson_equation"), [rhs, bc_token], {"label": "lbl"})
+        return r, log, made, rhs_data, bc_token, bcs_obj, grid, solution, n
+
+    ok_paths = fail_paths = 0
+    for p, res in enumerate(explore_paths(U, body)):
+        P = prem_of(res.ctx)
+        succeeded = z3.Bool("linear_solve_succeeds")
+        nm = f"solve_poisson_equation.path{p}"
+        if res.outcome == "raise":
+            fail_paths += 1
+            U.prove(f"{nm}.raises_only_when_the_linear_solve_failed", P, z3.And(z3.Not(succeeded), z3.BoolVal(res.exc.exc_type == "RuntimeError")))
+            continue
+        ok_paths += 1
+        r, log, made, rhs_data, bc_token, bcs_obj, grid, solution, n = res.value
+        U.prove(f"{nm}.returns_only_when_the_linear_solve_succeeded", P, succeeded,
+                info={"witness": "a failed solve must never be turned into a returned field", "replay_payload": {"wrapper": "poisson"}})
+        okw = len(made) == 1 and r is made[0] and log.get("bc") is bc_token and log.get("factory_bcs") is bcs_obj and log.get("op", (None, None))[0] is grid and log.get("op", (None, None))[1] == "poisson_solver"
+        U.prove(f"{nm}.caller's_conditions_and_grid_reach_the_solver_factory", P, z3.BoolVal(bool(okw)))
+        a, out = log.get("solver_args", (None, None))
+        U.prove(f"{nm}.solver_gets_rhs_data_and_writes_into_the_returned_field", P, z3.BoolVal(a is not None and a.buf is rhs_data.buf and isinstance(r, Instance) and out.buf is r.attrs["data"].buf))
+        j = z3.Int("j")
+        if isinstance(r, Instance):
+            U.prove(f"{nm}.returned_data_is_what_the_solver_wrote", P + [j >= 0, j < n], to_z3(r.attrs["data"].read((j,))) == solution(j))
+    U.prove("solve_poisson_equation.both_outcomes_explored", [], z3.BoolVal(ok_paths >= 1 and fail_paths >= 1))
+
+
+UNITS = _units() + [("wrapper.solve_poisson_equation", poisson_wrapper_unit)]
 # 3-d Cartesian assembly takes minutes per configuration: thorough tier only (quick tier: bounded native check)
 THOROUGH_ONLY = {n for n, _ in UNITS if n.startswith("cartesian3.")}
 
@@ -386,4 +456,4 @@ ASSUMPTIONS = [
     "grids with r_min = 0: the inner condition is the regularity condition (virtual point = first cell)",
     "3-d Cartesian assembly is proved in the thorough tier only (minutes per configuration); the quick tier covers it by the bounded native check",
 ]
-NOT_COVERED = ["make_laplace_from_matrix wrapper (trusted wrapper around mat.dot)", "pdes/laplace.py argument handling (exercised by the bounded native check only)"]
+NOT_COVERED = ["make_laplace_from_matrix wrapper (trusted wrapper around mat.dot)", "solve_laplace_equation (two lines on top of solve_poisson_equation) and the operator lookup by name: bounded native check only"]
